@@ -76,11 +76,26 @@ func doAES256IGEdecrypt(data, out, key, iv []byte) error {
 }
 
 // DecryptMessageWithTempKeys дешифрует сообщение паролем, которые получены в процессе обмена ключами диффи хеллмана
+//! DEPRECATED: panics if message is inconsistent, use TryDecryptMessageWithTempKeys
 func DecryptMessageWithTempKeys(msg []byte, nonceSecond, nonceServer *big.Int) []byte {
+	res, err := TryDecryptMessageWithTempKeys(msg, nonceSecond, nonceServer)
+	check(err)
+	return res
+}
+
+// TryDecryptMessageWithTempKeys is same as DecryptMessageWithTempKeys, but inconsistent message (wrong size,
+// hash which doesn't match to content) returns an error: message comes from the network, so it can't be a
+// reason to panic
+func TryDecryptMessageWithTempKeys(msg []byte, nonceSecond, nonceServer *big.Int) ([]byte, error) {
 	key, iv := generateTempKeys(nonceSecond, nonceServer)
 	decodedWithHash := make([]byte, len(msg))
 	err := doAES256IGEdecrypt(msg, decodedWithHash, key, iv)
-	check(err)
+	if err != nil {
+		return nil, err
+	}
+	if len(decodedWithHash) < 20 { //nolint:gomnd size of sha1
+		return nil, ErrDataTooSmall
+	}
 
 	// decodedWithHash := SHA1(answer) + answer + (0-15 рандомных байт); длина должна делиться на 16;
 	decodedHash := decodedWithHash[:20]
@@ -89,11 +104,11 @@ func DecryptMessageWithTempKeys(msg []byte, nonceSecond, nonceServer *big.Int) [
 	// режем последние 0-15 байт ориентируюясь по хешу
 	for i := len(decodedMessage); i > len(decodedMessage)-16 && i >= 0; i-- {
 		if bytes.Equal(decodedHash, dry.Sha1Byte(decodedMessage[:i])) {
-			return decodedMessage[:i]
+			return decodedMessage[:i], nil
 		}
 	}
 
-	panic("couldn't trim message: hashes incompatible on more than 16 tries")
+	return nil, ErrHashMismatch
 }
 
 // EncryptMessageWithTempKeys шифрует сообщение паролем, которые получены в процессе обмена ключами диффи хеллмана
